@@ -9,8 +9,10 @@ PROPS_V = 'C14/Props.v'
 LEVEL = 'proof'
 TRUSTED = [
     'translate/c14.py (+ find_function/zlit of translate/pyexpr.py): Python ast -> Gallina for the integer index arithmetic of smooth.py '
-    '(parity rule, width<3 test, istart/iend/w2, branch tests, slice bounds, edge multipliers); the arithmetic shape of the three stores is matched structurally',
-    'hand-written models C14/Model.v of median.py, uniq.py, rebin.py and of the glue of smooth.py (Python slice clamping, map over range(n)) -- tied by correspondence only',
+    '(parity rule, width<3 test, istart/iend/w2, branch tests, slice bounds, edge multipliers; the arithmetic shape of the three stores is matched structurally) '
+    'and for rebin.py\'s integer parts (rank test, per-axis % tests, expand/keep/shrink selectors, shrink factor / pick / block bounds; '
+    'the integer-kind -> rr//f else rr/f shape is matched structurally)',
+    'hand-written models C14/Model.v of median.py, uniq.py, the expanding branch and axis loop of rebin.py and of the glue of smooth.py (Python slice clamping, map over range(n)) -- tied by correspondence only',
     'numpy semantics exercised, not modelled: ndarray.sum/copy/flatten/argsort/roll/nonzero, fancy indexing, float->integer truncation on store, '
     'np.median; scipy.signal.medfilt/medfilt2d modelled as zero-padded window medians',
     'exact rationals stand for IEEE doubles: inputs are short dyadic rationals, results compared at 1e-12 (float64) / 1e-5 (float32) / exactly (integers, medians, uniq)',
@@ -24,7 +26,7 @@ ASSUMPTIONS = [
     'for a constant array with an index the result is [n-1] as in IDL uniq.pro (not index[n-1])',
     'rebin: extents >= 1, rank 1..3; integer dtypes: values small enough that no integer overflow occurs in sums; integer results: truncation toward zero '
     'of the interpolant, floor of the block mean (as the code does; IDL integer rounding for negative values is not documented -- pydl issue #60); '
-    'integer expansion is only generated with power-of-two factors or exact-in-double cases (float rounding at integer thresholds is outside the exact model)',
+    'integer sums/products stay below 2^53 (generated values are small)',
 ]
 
 HEADER = '''From Coq Require Import ZArith QArith List. Import ListNotations.
@@ -35,14 +37,17 @@ INT_DTYPES = ['i4', 'i2', 'i8', 'u1', 'u2']
 
 
 def translate(ctx):
-    text, info = T.generate(C.REPO)
-    path = os.path.join(C.COQ, 'Generated', 'Smooth.v')
-    if text is not None:
-        info['changed'] = C.write_if_changed(path, text)
-    else:
-        info['note'] = ('pydl/smooth.py not recognised; the previous Generated/Smooth.v is kept and the '
-                        'correspondence run alone ties the model to the code')
-    return {'Smooth': info}
+    res = {}
+    for name, gen, src in (('Smooth', T.generate, 'pydl/smooth.py'), ('Rebin', T.generate_rebin, 'pydl/rebin.py')):
+        text, info = gen(C.REPO)
+        path = os.path.join(C.COQ, 'Generated', name + '.v')
+        if text is not None:
+            info['changed'] = C.write_if_changed(path, text)
+        else:
+            info['note'] = ('%s not recognised; the previous Generated/%s.v is kept and the correspondence run '
+                            'alone ties the model to the code' % (src, name))
+        res[name] = info
+    return res
 
 
 # ---------------------------------------------------------------- value generators
@@ -98,17 +103,18 @@ def gen_smooth(ctx, calls):
     for n in range(1, nmax + 1):
         xs = values(rng, n)
         widths = list(range(0, n + 4))
-        if not ctx.thorough and n > 24:
-            # all widths for n <= 24; above, the boundary widths and a sample of the others
+        if not ctx.thorough and n > 16:
+            # quick tier: all widths for n <= 16; above, the boundary widths and a sample of the others
             keep = {0, 1, 2, 3, 4, 5, n - 2, n - 1, n, n + 1, n + 2, n + 3}
-            keep.update(rng.sample(range(6, n - 2), 8))
+            keep.update(rng.sample(range(6, n - 2), 5))
             widths = sorted(keep)
         for w in widths:
             for et in (False, True):
-                if ctx.thorough:
-                    xs = values(rng, n)
-                calls.append(('smooth-%s-%s' % ('et' if et else 'plain', 'dom' if w <= n else 'wide'),
-                              {'f': 'smooth', 'x': xs, 'w': w, 'et': et}))
+                for rep in range(ctx.n(1, 3)):
+                    if ctx.thorough:
+                        xs = values(rng, n)
+                    calls.append(('smooth-%s-%s' % ('et' if et else 'plain', 'dom' if w <= n else 'wide'),
+                                  {'f': 'smooth', 'x': xs, 'w': w, 'et': et}))
     for w in (-3, -2, -1):
         calls.append(('smooth-negwidth', {'f': 'smooth', 'x': values(rng, 7), 'w': w, 'et': True}))
     for n in (1, 2, 5, 9):
@@ -170,7 +176,7 @@ def sorted_runs(rng, n, floats):
 def gen_uniq(ctx, calls):
     rng = ctx.rng
     for n in range(1, 41):
-        for rep in range(ctx.n(3, 12)):
+        for rep in range(ctx.n(3, 30)):
             floats = rep % 3 == 2
             dt = 'f8' if floats else rng.choice(['i8', 'i4', 'i2'])
             calls.append(('uniq-sorted-' + ('float' if floats else 'int'),
@@ -228,7 +234,7 @@ def axis_target(rng, d0, mode, int_dtype):
     if mode == 'keep':
         return d0
     if mode == 'expand':
-        m = rng.choice([2, 4, 8] if int_dtype else [2, 3, 4, 5, 6, 7, 8])
+        m = rng.choice([2, 3, 4, 5, 7, 8] if int_dtype else [2, 3, 4, 5, 6, 7, 8])
         return d0 * m
     divs = [k for k in range(1, d0) if d0 % k == 0]
     return rng.choice(divs) if divs else d0
@@ -245,10 +251,10 @@ def gen_rebin(ctx, calls):
                 dts = ['f8', rng.choice(['f4'] + INT_DTYPES)]
                 for dt in dts:
                     isint = dt not in ('f8', 'f4')
-                    if isint and d > d0 and (d // d0) & (d // d0 - 1):
-                        continue   # integer expansion: power-of-two factors only (see ASSUMPTIONS)
-                    calls.append(('rebin1-%s-%s%s' % ('expand' if d > d0 else ('keep' if d == d0 else 'shrink'),
-                                                      'int' if isint else 'float', '-sample' if sample else ''),
+                    npot = isint and d > d0 and (d // d0) & (d // d0 - 1)
+                    calls.append(('rebin1-%s-%s%s%s' % ('expand' if d > d0 else ('keep' if d == d0 else 'shrink'),
+                                                        'int' if isint else 'float', '-npot' if npot else '',
+                                                        '-sample' if sample else ''),
                                   {'f': 'rebin', 'x': rebin_values(rng, d0, dt), 'dtype': dt, 'd': [d], 'sample': sample}))
     # larger expansion factors, incl. those whose reciprocal is not exact in doubles (49, 98, 103, 107 ...)
     for m in (16, 32, 33, 47, 49, 64, 93, 98, 103, 107):
@@ -256,11 +262,17 @@ def gen_rebin(ctx, calls):
             for sample in (False, True):
                 calls.append(('rebin1-bigfactor' + ('-sample' if sample else ''),
                               {'f': 'rebin', 'x': rebin_values(rng, d0, 'f8'), 'dtype': 'f8', 'd': [d0 * m], 'sample': sample}))
+    # integer dtypes, interpolation with factors that are not powers of two (exact interpolants that are integers)
+    for m in (3, 5, 6, 7, 9, 10, 12, 13):
+        for d0 in (2, 4, 6):
+            dt = rng.choice(INT_DTYPES)
+            calls.append(('rebin1-expand-int-npot', {'f': 'rebin', 'x': rebin_values(rng, d0, dt), 'dtype': dt,
+                                                     'd': [d0 * m], 'sample': False}))
     # 2-D: all 9 combinations of expand/keep/shrink
     modes = ['expand', 'keep', 'shrink']
     for m0 in modes:
         for m1 in modes:
-            for rep in range(ctx.n(8, 60)):
+            for rep in range(ctx.n(8, 120)):
                 dt = ['f8', 'f4', rng.choice(INT_DTYPES), 'f8'][rep % 4]
                 isint = dt not in ('f8', 'f4')
                 shape = [rng.choice([1, 2, 3, 4, 6, 8]), rng.choice([1, 2, 3, 4, 6, 9])]
@@ -275,14 +287,14 @@ def gen_rebin(ctx, calls):
     for m0 in modes:
         for m1 in modes:
             for m2 in modes:
-                for rep in range(ctx.n(3, 20)):
+                for rep in range(ctx.n(3, 40)):
                     dt = ['f8', rng.choice(INT_DTYPES), 'f4'][rep % 3]
                     isint = dt not in ('f8', 'f4')
                     shape = [rng.choice([1, 2, 4]), rng.choice([2, 3, 4]), rng.choice([1, 2, 6])]
                     for ax, md in enumerate((m0, m1, m2)):
                         if md == 'shrink' and shape[ax] == 1:
                             shape[ax] = 2
-                    d = [axis_target(rng, shape[a], md, isint) if md != 'expand' else shape[a] * rng.choice([2, 4] if isint else [2, 3, 4])
+                    d = [axis_target(rng, shape[a], md, isint) if md != 'expand' else shape[a] * rng.choice([2, 3, 4])
                          for a, md in enumerate((m0, m1, m2))]
                     x = reshape(rebin_values(rng, shape[0] * shape[1] * shape[2], dt), shape)
                     calls.append(('rebin3-%s-%s-%s' % (m0, m1, m2),
@@ -425,6 +437,8 @@ def signature(tag, c, r, verdict):
         if len(shp) == len(c['d']):
             inexact = any(float_index_inexact(a, b) for a, b in zip(shp, c['d']))
             ops = 'expand' if any(b > a for a, b in zip(shp, c['d'])) else 'noexpand'
+            if kind != 'f' and not c['sample'] and any(b > a and (b // a) & (b // a - 1) for a, b in zip(shp, c['d'])):
+                ops += '-npot'     # integer dtype, interpolation with a factor that is not a power of two
         else:
             inexact, ops = False, 'rankchange'
         out = 'ok' if 'ok' in r else r.get('err', '?')
@@ -533,7 +547,7 @@ def replay(ctx, rep):
         if c['f'] == 'rebin':
             nd = ndim(c['x'])
             print('spec   :', cc.show('rebin%d_spec %s %s %s %s' % (nd, 'DFloat' if c['dtype'] in ('f8', 'f4') else 'DInt',
-                                                                   C.boollit(c['sample']), nested(c['x'], nd), zlist(c['d'])))[-1500:])
+                                                                   C.boollit(c['sample']), nested(c['x'], nd), zlist(c['d'])))[:700])
     else:
         print('direct :', problem)
     return 0
